@@ -4,7 +4,7 @@ from harness.props import c03
 
 RULE = ("random wire packets (C03 generator, incl. hostile option areas, unknown kinds, EOL padding) -> real dump()/dump_quirks() -> "
         "real TCPSignature.parse -> real match; the printed texts are compared with the model's printer, the parse-back with the "
-        "packet's own fields, and the self-written signature must match the packet exactly; direct sweeps over layouts of kinds "
+        "packet's own fields, and the self-written signature (written from the packet signature AND from the parsed packet's own option object) must match the packet exactly; direct sweeps over layouts of kinds "
         "0..255 and quirk sets (quick: all single/double bits + 3000 random; thorough: all 2^17); non-trivial = non-empty layout "
         "or quirk set")
 GEN_TIE = ['options', 'sig']     # TCPOptions.parse (the option walker's while loop) is also TRANSLATED from /repo's source on every run and proved equal to the model
@@ -92,6 +92,14 @@ def impl_init():
         if ps is not None:
             text = ":".join([str(ps.ip_version), str(max(1, ps.ttl)), str(ps.ip_options_length), str(ps.options.mss),
                              "%d,%d" % (ps.window_size, ps.options.window_scale), lt, qt, "+" if ps.has_payload else "0"])
+            # the same signature written from the parsed PACKET's option object (result.packet.tcp.options) denotes the same layout and padding
+            ko = k.tcp.options
+            out["packet_view"] = [[int(x) for x in ko.layout], ko.eol_padding_length, ko.dump().encode().hex()]
+            if ps.ttl >= 1:
+                text_k = ":".join([str(ps.ip_version), str(max(1, ps.ttl)), str(ps.ip_options_length), str(ko.mss),
+                                   "%d,%d" % (ps.window_size, ko.window_scale), ko.dump(), qt, "+" if ps.has_payload else "0"])
+                mk = tcp_signatures_match(TCPSignature.parse(text_k), TCPPacketSignature.from_packet(k), Options())
+                out["self_match_packet_view"] = None if mk is None else mk.name
             if ps.ttl >= 1:
                 sig = TCPSignature.parse(text)
                 m = tcp_signatures_match(sig, ps, Options())
@@ -128,6 +136,10 @@ def judge(c, ir, mr):
     if ir["back"] != want and (has_eol or f["eol"] == 0):
         return {"kind": "printed layout/quirks do not parse back to the packet's own fields", "why": "fields %s texts %s back %s" % (f, [bytes.fromhex(x).decode() for x in ir["texts"]], ir["back"]),
                 "judged_by": "C18_layout / C18_quirks"}
+    if "packet_view" in ir and ir["packet_view"] != [f["layout"], f["eol"], ir["texts"][0]]:
+        return {"kind": "the parsed packet and its packet signature print different option layouts", "why": "packet %s, signature %s" % (ir["packet_view"], [f["layout"], f["eol"], ir["texts"][0]])}
+    if "self_match_packet_view" in ir and ir["self_match_packet_view"] != "EXACT":
+        return {"kind": "a signature written from the parsed packet's options does not match that packet exactly", "why": str(ir)[:400]}
     if "self_match" in ir and ir["self_match"] != "EXACT":
         return {"kind": "a signature written from the packet does not match it exactly", "why": str(ir)}
     if "db_match" in ir and ir["db_match"] != "EXACT":
